@@ -48,6 +48,19 @@ def _cls_methods(cls, module, methods):
 THRESHOLD_COUNTER = {
     'name': 'ThresholdCounter', 'lean_name': 'ThresholdCounter', 'tparams': ['κ'], 'deceq': ['κ'],
     'state': {'total': 'Int', '_count_map': 'Dict κ (Int × Int)', '_cur_bucket': 'Int', '_thresh_count': 'Int'},
+    # round 3b: the names above are ROLES (they name the record fields); which private attribute of the class under
+    # test plays which role is found by evaluating the real class on these probe objects (py2lean_clsprep.
+    # resolve_roles): the attribute whose values in the probes are the signature.  `total` is public API (fixed).
+    # probes: fresh at threshold 1/4, fresh at 1/10, threshold 1/4 after add('a'..'e') (one compaction, then 'e').
+    'role_probe': {
+        'objects': [({'threshold': 0.25}, []), ({'threshold': 0.1}, []),
+                    ({'threshold': 0.25}, [('add', 'a'), ('add', 'b'), ('add', 'c'), ('add', 'd'), ('add', 'e')])],
+        'signature': {'total': [0, 0, 5], '_count_map': [{}, {}, {'e': [1, 1]}], '_cur_bucket': [1, 1, 2],
+                      '_thresh_count': [4, 10, 4]},
+        'fixed': ['total'],
+    },
+    'helpers': True,         # private / unlisted methods called through `self.` are translated on demand
+    'clsprep': True,         # class-level desugaring pre-pass (aliases of attributes, dict-building loops, ...)
 }
 _TC = _cls_methods(THRESHOLD_COUNTER, 'boltons.cacheutils', [
     {'py': 'add', 'name': 'add', 'params': {'key': 'κ'}, 'result': 'None',
@@ -87,6 +100,7 @@ ONE_TO_ONE = {
     'state': {'fwd': 'Dict κ κ', 'inv': 'Dict κ κ'},
     'dict_base': 'fwd', 'peer': {'attr': 'inv', 'swap': {'fwd': 'inv', 'inv': 'fwd'}},
     'sentinels': ['_MISSING'],
+    'helpers': True, 'clsprep': True,     # round 3b: helper methods on demand, class-level desugaring pre-pass
 }
 _OTO = _cls_methods(ONE_TO_ONE, 'boltons.dictutils', [
     {'py': '__delitem__', 'name': 'delitem', 'params': {'key': 'κ'}, 'result': 'None',
@@ -115,6 +129,7 @@ MANY_TO_MANY = {
     'name': 'ManyToMany', 'lean_name': 'ManyToMany', 'tparams': ['κ'], 'deceq': ['κ'],
     'state': {'data': 'Dict κ (Set κ)', 'inv_data': 'Dict κ (Set κ)'},
     'paths': {'inv.data': 'inv_data'}, 'virtual': ['inv_data'],
+    'helpers': True, 'clsprep': True,     # round 3b
 }
 _M2M = _cls_methods(MANY_TO_MANY, 'boltons.dictutils', [
     {'py': 'add', 'name': 'add', 'params': {'key': 'κ', 'val': 'κ'}, 'result': 'None',
